@@ -19,7 +19,7 @@ git -C "$WT" apply --whitespace=nowarn "$SRC/patch.diff" || { echo "PATCH DOES N
 r1=$(rundemo); echo "demo with the change:   exit $r1 (want != 0)"; [ "$r1" = 0 ] && tail -5 "$WT/.demo.out"
 # baseline suite with the change (demo files removed so they do not count)
 ( cd "$SRC/demo" && find . -type f ! -name RUN.md | while read f; do rm -f "$WT/$f"; done )
-( cd "$WT" && timeout 900 go test -vet=off -count=1 -timeout 300s ./... 2>&1 | grep -v 'no test files' | grep -v '^ok' | head -8 ) > "$WT/.base.out"
+( cd "$WT" && timeout 900 go test -vet=off -count=1 -timeout 300s ./... 2>&1 | grep -E '^(FAIL|--- FAIL|panic:|ok .*FAIL)' | head -8 ) > "$WT/.base.out"
 if [ -s "$WT/.base.out" ]; then echo "baseline with the change: NOT CLEAN:"; cat "$WT/.base.out"; else echo "baseline with the change: all packages ok"; fi
 mkdir -p /verif/seeded/$NAME && cp -r "$SRC/patch.diff" "$SRC/meta.json" "$SRC/demo" /verif/seeded/$NAME/ 2>/dev/null
 for id in $IDS; do
